@@ -264,9 +264,9 @@ def rsaVerify (C : Crypto) (c : Cert) (sig data : Bytes) (a : VArgs) : Except Re
   | none => .error (.raise "UnknownRSAType")
 
 /-- python-ecdsa `verify_digest` without `allow_truncate`: a digest longer than the curve order
-    raises BadDigestError, which `Python_ECDSAKey._verify` does not catch -/
+    raises BadDigestError, which `Python_ECDSAKey._verify` catches: verification fails -/
 def ecdsaVerify (C : Crypto) (c : Cert) (sig data : Bytes) : Except Reject Bool :=
-  if data.length > c.baselen then .error (.raise "BadDigestError")
+  if data.length > c.baselen then .ok false
   else .ok (C.verify c.key .ecdsa data sig)
 
 /-- `publicKey.<method>(sig, data, pad, hash, salt)` for the key class of the certificate -/
@@ -288,7 +288,7 @@ def keyVerify (C : Crypto) (c : Cert) (m : Method) (sig data : Bytes) (a : VArgs
   | .ed25519, .hashAndVerify | .ed448, .hashAndVerify => .ok (C.verify c.key .eddsa data sig)
   | .dsa, .verify =>
     if sig = [] then .ok false
-    else if C.derOk sig = false then .error (.raise "UnexpectedDER")
+    else if C.derOk sig = false then .ok false      -- UnexpectedDER is caught: not a signature
     else .ok (C.verify c.key .dsa data sig)
   | .dsa, .hashAndVerify => .error (.raise "TypeError")
 
@@ -639,12 +639,14 @@ def verifyDC (C : Crypto) (cert : Cert) (certBytes : Bytes) (chSigAlgs chDcAlgs 
 
 /-- client side (`_clientTLS13Handshake`): server Certificate (+ optional delegated credential)
     and CertificateVerify.  `chSigAlgs` is the signature_algorithms list of the ClientHello. -/
-def verifyCV13Client (C : Crypto) (s : Settings) (chSigAlgs : List SchemeId) (chain : Chain)
+def verifyCV13ClientRaw (C : Crypto) (s : Settings) (chSigAlgs : List SchemeId) (chain : Chain)
     (certBytes : Bytes) (dcs : List DelegatedCred) (t : Transcript) (prf : HashName)
     (cv : CertVerify) : Except Reject Chain := do
   let sid ← match cv.scheme with
     | some x => pure x
     | none => throw (.raise "TypeError")
+  -- the scheme must be advertised (signature_algorithms or delegated_credential) before it is used
+  if ¬ (sid ∈ chSigAlgs ++ s.dcSigAlgs) then throw (.alert AD.illegalParameter)
   -- `calcVerifyBytes` runs before `_clientGetKeyFromChain`
   let ctx ← calcVerifyBytes C 4 t (some sid) prf tagServer false
   let pk ← clientGetKeyFromChain s 4 chain
@@ -660,6 +662,28 @@ def verifyCV13Client (C : Crypto) (s : Settings) (chSigAlgs : List SchemeId) (ch
       pure (pk, sid)
   let ok ← cv13Call C pk' sid' cv.signature ctx true (some sid')
   if ok then pure chain else throw (.raise "TLSDecryptionFailed")
+
+/-- `_handshakeClientAsyncHelper` turns the exceptions raised by the TLS 1.3 client's checks into
+    alerts -/
+def mapExc13 : Reject → Reject
+  | .raise n =>
+    if n = "TLSIllegalParameterException" then .alert AD.illegalParameter
+    else if n = "TLSDecryptionFailed" then .alert AD.decryptError
+    else if n = "TLSDecodeError" then .alert AD.decodeError
+    else if n = "BadCertificateError" then .alert 42
+    else .raise n
+  | e => e
+
+def liftExc13 {α : Type} (r : Except Reject α) : Except Reject α :=
+  match r with
+  | .ok x => .ok x
+  | .error e => .error (mapExc13 e)
+
+/-- the client-side check as seen from outside `_clientTLS13Handshake` -/
+def verifyCV13Client (C : Crypto) (s : Settings) (chSigAlgs : List SchemeId) (chain : Chain)
+    (certBytes : Bytes) (dcs : List DelegatedCred) (t : Transcript) (prf : HashName)
+    (cv : CertVerify) : Except Reject Chain :=
+  liftExc13 (verifyCV13ClientRaw C s chSigAlgs chain certBytes dcs t prf cv)
 
 /-- server side (`_serverTLS13Handshake`): client Certificate and CertificateVerify.
     `ownScheme` is the scheme the server itself signed with (the stale `scheme` variable read by
@@ -885,7 +909,7 @@ def hsClient13 (C : Crypto) (s : Settings) (chSigAlgs : List SchemeId) (chain : 
   match verifyCV13Client C s chSigAlgs chain certBytes dcs tCV prf cv with
   | .error e => .fail none e
   | .ok ch =>
-    if serverFin ≠ finished13 C prf srHsSecret tFin then .fail none (.raise "TLSDecryptionFailed")
+    if serverFin ≠ finished13 C prf srHsSecret tFin then .fail none (.alert AD.decryptError)
     else .done { serverCertChain := ch }
 
 /-- TLS 1.3 server: PSK selection (binder), or certificate path with optional client
